@@ -120,3 +120,72 @@ c.modifies()
 c = M.contract("Queue._on_queue_feeder_error", props=["C04"])
 c.param("self", T.Ref("Queue")).param("e", T.Obj).param("obj", T.Obj)
 c.modifies()
+
+
+# ======================================================================
+# SimpleQueue.put and the feeder thread: which reducers are used (C15), the error path (C04)
+S.contracts[f"{Q}:SimpleQueue.put"].trusted_summary = False
+c = S.contracts[f"{Q}:SimpleQueue.put"]
+c.at_call("loky.backend.reduction:dumps", "serialises-with-the-queues-own-reducers", "arg_reducers is self._reducers and arg_obj is obj", prop="C15")
+c.ensures("put/one-message-under-the-write-lock",
+          "log_count('send_bytes') == 1 and log_arg('send_bytes', 0, 0) is self._writer and log_arg('send_bytes', 0, 1) is log_arg('call:dumps', 0, 0) and "
+          "implies(self._wlock is not None, log_tags() == ['call:dumps', 'acquire', 'send_bytes', 'release'] and log_arg('acquire', 0, 0) is self._wlock)")
+c.ensures("put/write-lock-free-afterwards", "implies(self._wlock is not None, not held(self._wlock))")
+c.exsures_[:] = []
+c.raises("put/fails-only-in-pickling-or-sending-with-the-lock-released", "BaseException",
+         post="implies(self._wlock is not None, not held(self._wlock)) and (log_count('raise:dumps') == 1 or log_count('raise:Connection.send_bytes') == 1)")
+
+S.cls("threading.Condition", {}, external=True)
+for nm in ("acquire", "release", "wait"):
+    cc = S.ext(f"threading.Condition.{nm}", cite=f"threading.Condition.{nm}()")
+    cc.param("self", T.Ref("threading.Condition")).event(f"cond_{nm}", "self").modifies()
+S.cls("deque", {}, external=True, truthy=lambda eng, v, st: z3.Bool(__import__("pyvc.values", fromlist=["fresh_name"]).fresh_name("deque_nonempty")))
+
+
+@_impl("deque.popleft", cite="collections.deque.popleft(): next buffered object, IndexError when empty")
+def _popleft(eng, st, self_v, args, kwargs, node):
+    from pyvc.values import VObj, fresh_const
+    out = []
+    s = st.clone()
+    s.emit("popleft_empty", [self_v], eng.site(node))
+    out.append(eng.raise_new(s, "IndexError"))
+    o = VObj(fresh_const("queued", T.IntS))
+    st.emit("popleft", [self_v, o], eng.site(node))
+    out.append(eng.val(st, o))
+    return out
+
+
+c = S.ext("multiprocessing.util.is_exiting", cite="util.is_exiting(): whether the interpreter is shutting down")
+c.returns(T.Bool).modifies()
+S.ext_consts["multiprocessing.queues._sentinel"] = __import__("pyvc.values", fromlist=["VConst"]).VConst("multiprocessing.queues._sentinel")
+
+c = M.contract("Queue._feed", props=["C04", "C15"])
+c.param("buffer", T.Ref("deque")).param("notempty", T.Ref("threading.Condition")).param("send_bytes", T.FnT)
+c.param("writelock", T.Ref("MPLock")).param("close", T.FnT).param("reducers", T.Obj).param("ignore_epipe", T.Bool)
+c.param("onerror", T.FnT).param("queue_sem", T.Ref("MPLock"))
+c.requires("callables-given", "send_bytes is not None and close is not None and onerror is not None and writelock is not queue_sem and "
+           "close is not onerror and send_bytes is not onerror and close is not send_bytes")
+c.at_call("loky.backend.reduction:dumps", "serialises-with-the-reducers-it-was-given", "arg_reducers is reducers", prop="C15")
+c.raises("feed/only-what-the-error-callback-raises", "BaseException")
+c.replay_for("error-path", "feeder_swallows")
+c.modifies("G.sem_released")
+c.assumes("A-user")
+io = M.invariant("Queue._feed", 0, "while True:")
+io.inv("write-lock-free-at-loop-head", "not held(writelock)")
+SENT_OBJ = "log_arg('popleft', -1, 1)"
+io.iter_post("error-path/slot-released-once-then-callback-with-the-faulty-object",
+             "tail(implies(count_events('user_call', lambda f: f is onerror) >= 1, "
+             "count_events('user_call', lambda f: f is onerror) == 1 and count_events('release', lambda l: l is queue_sem) == 1 and "
+             "ordered('release', lambda l: l is queue_sem, 'user_call', lambda f: f is onerror) and "
+             "implies(log_count('popleft') == 1, exists_event('user_call', lambda f, e, o: f is onerror and o is log_arg('popleft', 0, 1)))))", prop="C04")
+io.iter_post("error-path/a-failed-send-is-always-reported",
+             "tail(implies((log_count('raise:dumps') == 1 or count_events('user_raise', lambda f, e: f is send_bytes) == 1), "
+             "count_events('user_call', lambda f: f is onerror) == 1))", prop="C04")
+io.iter_post("error-path/write-lock-released", "not held(writelock)", prop="C04")
+ii = M.invariant("Queue._feed", 1, "while True:")
+ii.inv("write-lock-free-between-objects", "not held(writelock)")
+ii.iter_post("one-object-one-pickle-one-send",
+             "log_count('popleft') == 1 and log_count('call:dumps') == 1 and log_arg('call:dumps', 0, 1) is log_arg('popleft', 0, 1) and "
+             "count_events('user_call', lambda f: f is send_bytes) == 1 and "
+             "ordered('acquire', lambda l: l is writelock, 'user_call', lambda f: f is send_bytes) and "
+             "ordered('user_call', lambda f: f is send_bytes, 'release', lambda l: l is writelock)", prop=["C04", "C15"])
